@@ -5,6 +5,15 @@
    An atom array is abstracted to its sequence of annotation rows
        rows[k] = <<chain_id, res_id, ins_code, res_name>>        (k = 1..n, atom index k-1)
    Atom indices, segment starts and segment positions are 0-based like the code's.
+   A row may carry further components: rows[k][5] = hetero flag, rows[k][6] = atom name (which
+   also fixes the element) stand for "every other annotation of the atom".  Only the first four
+   components are keys of the segmentation (Key, Law_KeyOnly): boundaries lie EXACTLY where
+   one of the four keys changes, whatever the other annotations are.
+
+   The subject is a mutable object: its annotations are edited in place between two calls
+   (Edits below).  Every view is a function of the CURRENT rows only - a call made after an
+   edit answers for the edited rows, whatever was asked before (histories: SegMol "hist"
+   family, Trace "edit" events).
 
    Two layers:
      * declarative ("direct per-atom recomputation"): Is*Start, StartSet, SameSegment,
@@ -178,6 +187,36 @@ Op_Spread(level, rows, vals) == R("ok", ImplSpread(StartsStop(level, rows), vals
 \* residue_iter / chain_iter: the atom indices of each yielded sub-array
 Op_Iter(level, rows) == R("ok", ImplIter(StartsStop(level, rows)))
 
+(* ------------------------------------------------------------------ non-key annotations *)
+NFields == 6            \* 1 chain id, 2 residue id, 3 insertion code, 4 residue name | 5 hetero, 6 atom name
+KeyFields == 1..4
+Key(r) == <<r[1], r[2], r[3], r[4]>>
+Keys(rows) == [k \in DOMAIN rows |-> Key(rows[k])]
+
+(* ------------------------------------------------------------------ in-place edits of the live array
+   An edit is a record [kind, f, lo, hi, v]:
+     "set"     array.<f>[lo] = v                    (hi = lo + 1)   element assignment in place
+     "fill"    array.<f>[lo:hi] = v                                  slice assignment in place
+     "assign"  array.<f> = <new ndarray equal to the old one except [lo:hi] = v>
+     "atom"    array[lo] = Atom(... v ...)           (hi = lo + 1, f = 0, v = a whole row)
+   The first three have the same meaning (they differ in the mechanism the driver uses);
+   afterwards the array is the same object with the rows below. *)
+EditKinds == {"set", "fill", "assign", "atom"}
+SetField(r, f, v) == [r EXCEPT ![f] = v]
+EditFill(rows, f, lo, hi, v) ==
+  [k \in DOMAIN rows |-> IF lo <= k - 1 /\ k - 1 < hi THEN SetField(rows[k], f, v) ELSE rows[k]]
+EditAtom(rows, i, row) == [rows EXCEPT ![i + 1] = row]
+ApplyEdit(rows, e) ==
+  IF e.kind = "atom" THEN EditAtom(rows, e.lo, e.v) ELSE EditFill(rows, e.f, e.lo, e.hi, e.v)
+ApplyEdits(rows, es) == FoldLeft(LAMBDA acc, e : ApplyEdit(acc, e), rows, es)
+\* edits are made inside the array (numpy would clip a slice / refuse an element outside)
+Dom_Edit(n, e) ==
+  /\ e.kind \in EditKinds
+  /\ 0 <= e.lo /\ e.lo < e.hi /\ e.hi <= n
+  /\ (e.kind \in {"set", "atom"} => e.hi = e.lo + 1)
+  /\ (e.kind = "atom" => e.f = 0)
+  /\ (e.kind # "atom" => e.f \in 1..NFields)
+
 (* ------------------------------------------------------------------ laws (checked by TLC in SegMol) *)
 \* boundaries are exactly where the definition says
 Law_Starts(level, rows) ==
@@ -210,6 +249,19 @@ Law_SpreadApply(level, rows, vals) ==
   Len(rows) > 0 =>
     ImplApply(StartsStop(level, rows), ImplSpread(StartsStop(level, rows), vals), "first") = vals
 
+\* only the four keys matter: any other annotation may take any value
+Law_KeyOnly(level, rows) ==
+  /\ StartSet(level, rows) = StartSet(level, Keys(rows))
+  /\ ImplStarts(level, rows, TRUE) = ImplStarts(level, Keys(rows), TRUE)
+\* an edit moves boundaries only at the edited atoms and at the atom behind them; an edit of a
+\* non-key annotation moves none
+Law_EditLocal(level, rows, e) ==
+  LET after == ApplyEdit(rows, e) IN
+  /\ Len(after) = Len(rows)
+  /\ \A k \in 0..(Len(rows) - 1) :
+       (k < e.lo \/ k > e.hi) => (IsStart(level, after, k) <=> IsStart(level, rows, k))
+  /\ (e.kind # "atom" /\ e.f \notin KeyFields) => StartSet(level, after) = StartSet(level, rows)
+
 (* examples from the documentation / hand-checked, to pin the operators *)
 ASSUME ImplStarts("residue", <<<<"A",1,"","X">>, <<"A",1,"","X">>, <<"A",1,"A","X">>, <<"B",1,"A","X">>, <<"B",0,"A","Y">>>>, TRUE)
          = <<0, 2, 3, 4, 5>>
@@ -217,4 +269,9 @@ ASSUME ImplStarts("chain", <<<<"A",1,"","X">>, <<"A",1,"","X">>, <<"A",1,"A","X"
          = <<0, 3, 4, 5>>
 ASSUME SearchSortedRight(<<0, 2, 3>>, 2) = 2 /\ SearchSortedRight(<<0, 2, 3>>, 1) = 1
 ASSUME ImplSpread(<<0, 2, 3>>, <<10, 20>>) = <<10, 10, 20>>
+\* a hetero flag does not keep a decreasing residue id from opening a chain
+ASSUME ImplStarts("chain", <<<<"A",2,"","X",FALSE,"CA">>, <<"A",1,"","X",TRUE,"CA">>>>, FALSE) = <<0, 1>>
+\* array.res_id[1] = 2 splits the residue; the views answer for the edited rows
+ASSUME ImplStarts("residue", ApplyEdit(<<<<"A",1,"","X">>, <<"A",1,"","X">>>>,
+                                       [kind |-> "set", f |-> 2, lo |-> 1, hi |-> 2, v |-> 2]), FALSE) = <<0, 1>>
 =============================================================================
